@@ -258,15 +258,20 @@ class LocalFileStore(Store):
             loc_dir = os.path.dirname(loc)
             if not os.path.exists(loc_dir):
                 _logger.debug(f"Creating dir {loc_dir}")
-                os.makedirs(loc_dir)
+                os.makedirs(loc_dir, exist_ok=True)
             loc_blob = os.path.join(self._root, "blobs", key)
             if os.path.exists(loc) and os.path.realpath(loc) == loc_blob:
                 _logger.debug(f"Link {loc} up to date")
             else:
-                if os.path.exists(loc):
-                    os.remove(loc)
                 _logger.info(f"Link {loc} -> {loc_blob}")
-                os.symlink(loc_blob, loc)
+                # The new link is created under a temporary name and renamed over the previous one:
+                # the path always resolves to its old or to its new blob, also if this process is
+                # killed or another one commits the same path at the same time.
+                tmp_loc = self._tmp_name(loc)
+                if os.path.lexists(tmp_loc):
+                    os.remove(tmp_loc)
+                os.symlink(loc_blob, tmp_loc)
+                os.replace(tmp_loc, loc)
 
     def fetch_paths(self, paths: List[DDSPath]) -> "OrderedDict[DDSPath, PyHash]":
         res = OrderedDict()
